@@ -25,11 +25,11 @@ QUICK_S = 45
 THOROUGH_S = 480
 CHUNK = 30
 REAL_COMPONENTS = ['pysmi.compiler.MibCompiler.compile', 'parser', 'SymtableCodeGen', 'JsonCodeGen', 'pysmi.searcher.StubSearcher',
-                   'pysmi.searcher.AnyFileSearcher / PyFileSearcher / PyPackageSearcher (layers b, c)', 'pysmi.reader.FileReader, pysmi.writer.FileWriter (layer c)']
-STUB_COMPONENTS = ['searcher answer tables (layer a)', 'sources/borrowers/writer (layer a)', 'clock (virtual; file mtimes stamped from it)', 'stat/open/read errno and vanish faults']
+                   'pysmi.searcher.AnyFileSearcher / PyFileSearcher / PyPackageSearcher (layers b, c)', 'pysmi.reader.FileReader / ZipReader / HttpReader (source ages from st_mtime, ZIP local-time fields, Last-Modified), pysmi.writer.FileWriter (layer c)']
+STUB_COMPONENTS = ['searcher answer tables (layer a)', 'web server behind HttpReader (simulated responder at urlopen, no socket; layer c)', 'process time zone (chosen per world: UTC, CET/CEST, EST/EDT, IST)', 'sources/borrowers/writer (layer a)', 'clock (virtual; file mtimes stamped from it)', 'stat/open/read errno and vanish faults']
 RULE = ('(a) seeded compile() worlds with 1-3 searchers answering fresh/stale/error per module, file-like and stub-like, rebuild/noDeps subsets; '
         '(b) product {AnyFileSearcher(.json), PyFileSearcher, PyPackageSearcher} x destination population {none, file at t-1/t/t+1, directory} x legacy .pyc {none, header time t-1/t/t+1, bad magic} '
-        'x distractors x rebuild, each also with every (interposed call, errno/vanish) fault; (c) histories of compile/touch/advance; '
+        'x distractors x rebuild, each also with every (interposed call, errno/vanish) fault; (c) histories of compile/touch/advance over directory, ZIP (time-zone worlds) and HTTP sources (Last-Modified present or absent, time-zone worlds); '
         'distinct = distinct (layer, searcher, population, relation, rebuild, fault, answer) or status signature; non-trivial = all of layer b/c, layer a with >=1 searcher')
 ASSUMPTIONS = ['mtimes have one-second resolution (pysmi reads st[8]); the clock is virtual and integer',
                'PyPackageSearcher is exercised on its package-directory branch; the egg/zipimport branch depends on a private zipimporter attribute and is not simulated']
@@ -414,6 +414,32 @@ def _c_zip(scn, rng):
     return scn
 
 
+def _c_http(scn, rng):
+    """the sources come from a web server: the reader takes the source's age from the Last-Modified header (GMT)"""
+    scn['http_tz'] = rng.choice(['CET-1CEST,M3.5.0,M10.5.0/3', 'EST5EDT,M3.2.0,M11.1.0', 'IST-5:30', 'UTC', 'UTC'])
+    scn['persistent'] = rng.random() < 0.5
+    scn['src_skew'] = int(scn['src_skew'])
+    scn['no_last_modified'] = rng.random() < 0.2
+    for o in scn['ops']:
+        if o['op'] == 'advance':
+            o['dt'] = int(o['dt'])
+    return scn
+
+
+class _HttpResp(object):
+    code = 200
+
+    def __init__(self, body, lastmod):
+        self._b = body
+        self._lm = lastmod
+
+    def getheader(self, name, default=None):
+        return self._lm if name == 'Last-Modified' and self._lm else default
+
+    def read(self, n=-1):
+        return self._b if n is None or n < 0 else self._b[:n]
+
+
 def run_c(scn):
     from pysmi.compiler import MibCompiler
     from pysmi.reader.localfile import FileReader
@@ -421,6 +447,7 @@ def run_c(scn):
     from pysmi.writer.localfile import FileWriter
     root = core.new_root('c10c')
     viol = []
+    saved_urlopen = None
 
     def V(clause, msg, **facts):
         viol.append({'clause': clause, 'key': '%s|%s' % (clause, facts.get('what', '')), 'facts': facts, 'message': msg})
@@ -460,6 +487,22 @@ def run_c(scn):
             for n_ in src_m:
                 src_m[n_] = float(int(src_m[n_]) // 2 * 2)
             rebuild_zip()
+        htz = scn.get('http_tz')
+        if htz:
+            import pysmi.reader.httpclient as hc
+            os.environ['TZ'] = htz
+            time.tzset()
+            for n_ in src_m:
+                src_m[n_] = float(int(src_m[n_]))
+
+            def fake_urlopen(reqobj):
+                name = reqobj.full_url.rsplit('/', 1)[-1]
+                if name in texts:
+                    lm = None if scn.get('no_last_modified') else core.R.strftime('%a, %d %b %Y %H:%M:%S GMT', core.R.gmtime(int(src_m[name])))
+                    return _HttpResp(texts[name].encode(), lm)
+                raise IOError('HTTP Error 404: Not Found')
+            saved_urlopen = hc.urlopen
+            hc.urlopen = fake_urlopen
         w = core.World(root=root, clock=core.EPOCH0, listing_seed=scn.get('listing_seed'))
         core.patch_pysmi()
         sig = []
@@ -475,6 +518,8 @@ def run_c(scn):
                     if ztz:
                         src_m[op['name']] = float(int(w.now) // 2 * 2)
                         rebuild_zip()
+                    if htz:
+                        src_m[op['name']] = float(int(w.now))
                 else:
                     if persistent is None or not scn.get('persistent'):
                         # a long-lived compiler (one searcher/reader/writer object for the whole history) in
@@ -483,14 +528,21 @@ def run_c(scn):
                         if ztz:
                             from pysmi.reader.zipreader import ZipReader
                             comp.addSources(ZipReader(zp))
+                        elif htz:
+                            from pysmi.reader.httpclient import HttpReader
+                            comp.addSources(HttpReader('mibs.example.com', 80, '/asn1/@mib@'))
                         else:
                             comp.addSources(FileReader(src))
                         comp.addSearchers(AnyFileSearcher(dst).setOptions(exts=['.json']))
                         persistent = comp
                     comp = persistent
                     before = core.snapshot(dst)
+                    if htz and scn.get('no_last_modified'):
+                        for n_ in src_m:
+                            src_m[n_] = float(int(w.now)) if w.now == int(w.now) else w.now    # no header: the reader takes the time of the fetch
                     try:
-                        R = comp.compile(*op['names'], **op['options'])
+                        with core.partitioned_network():
+                            R = comp.compile(*op['names'], **op['options'])
                     except BaseException as e:  # noqa
                         if isinstance(e, (core.StepBudget, core.WorldTimeout)):
                             raise
@@ -541,9 +593,12 @@ def run_c(scn):
                 'probes': {'layer-c': 1, 'c-equal-mtime-case': 1 if any(s[1] == 'eq' for s in sig) else 0},
                 'fp': fp, 'fph': fph, 'comps': {'compile(real reader/writer/searcher)': sum(1 for o in scn['ops'] if o['op'] == 'compile')}}
     finally:
-        if scn.get('zip_tz'):
+        if scn.get('zip_tz') or scn.get('http_tz'):
             os.environ['TZ'] = 'UTC'
             time.tzset()
+        if scn.get('http_tz') and saved_urlopen is not None:
+            import pysmi.reader.httpclient as hc
+            hc.urlopen = saved_urlopen
         cs.get_parser()
         core.drop_root(root)
 
@@ -598,7 +653,10 @@ def generate(rng, tier):
         if rng.random() < 0.15:
             base['late_pkg'] = True
         return base
-    return _c_zip(gen_c(rng, tier), rng)
+    scn = _c_zip(gen_c(rng, tier), rng)
+    if not scn.get('zip_tz') and rng.random() < 0.25:
+        scn = _c_http(scn, rng)
+    return scn
 
 
 def shrink(scn):
